@@ -30,7 +30,7 @@ var c16Targets = []struct {
 }{{"932100", "932100", 0}, {"932110-chain1", "932110", 1}, {"932200", "932200", 0}}
 
 var assemblyFaults = []string{"missing-include", "missing-exclude-file", "unparsable-entry", "unknown-processor", "bad-cmdline-type", "missing-cmdline-type", "extra-end-marker", "missing-end-marker", "unknown-stored-name", "stored-name-of-another-file", "unsupported-flag", "odd-replacement-list", "flags-in-include"}
-var rulesFaults = []string{"rule-id-absent", "chain-offset-beyond-chain", "no-rules-file", "two-rules-files", "target-without-rx"}
+var rulesFaults = []string{"rule-id-absent", "chain-offset-beyond-chain", "chain-offset-past-end-of-chain", "no-rules-file", "two-rules-files", "target-without-rx"}
 var formatFaults = []string{"extra-end-marker", "unsupported-flag"}
 
 func genC16(t *rapid.T) C16Case {
@@ -86,6 +86,9 @@ func genC16(t *rapid.T) C16Case {
 				c.UseInc[i] = false
 			}
 		}
+	}
+	if c.Fault == "chain-offset-past-end-of-chain" {
+		c.File = 1 // only the chained unit can overshoot a chain that exists
 	}
 	return c
 }
@@ -162,7 +165,11 @@ func (c C16Case) build(withFault bool) cli.Tree {
 			lines = append(lines, fl...)
 		}
 		lines = append(lines, w[2:]...)
-		t["regex-assembly/"+tg.name+".ra"] = strings.Join(lines, "\n") + "\n"
+		name := tg.name
+		if withFault {
+			name = c.unitName(i)
+		}
+		t["regex-assembly/"+name+".ra"] = strings.Join(lines, "\n") + "\n"
 	}
 	if withFault && fl != nil {
 		switch c.Where {
@@ -242,9 +249,19 @@ func (c C16Case) build(withFault bool) cli.Tree {
 	return t
 }
 
-func (c C16Case) argv(root string) ([]string, string) {
+func (c C16Case) unitName(i int) string {
+	if c.Fault == "chain-offset-past-end-of-chain" && i == 1 {
+		return "932110-chain2" // the rule has one chained rule only
+	}
+	return c16Targets[i].name
+}
+
+func (c C16Case) argv(root string, withFault bool) ([]string, string) {
 	tg := c16Targets[c.File]
 	arg := tg.name
+	if withFault {
+		arg = c.unitName(c.File)
+	}
 	if strings.HasPrefix(c.Fault, "malformed-rule-id:") {
 		arg = strings.TrimPrefix(c.Fault, "malformed-rule-id:")
 	}
@@ -305,14 +322,14 @@ func checkC16(c C16Case) Outcome {
 		// no chain to fall short of: same as an absent rule
 		out.Labels = append(out.Labels, "degenerate:offset0")
 	}
-	runOn := func(tree cli.Tree) (cli.Result, cli.Tree, cli.Tree) {
+	runOn := func(tree cli.Tree, withFault bool) (cli.Result, cli.Tree, cli.Tree) {
 		sb := cli.NewSandbox("c16")
 		defer sb.Close()
 		root := sb.Path("crs")
 		if err := tree.Write(root); err != nil {
 			panic(err)
 		}
-		argv, mode := c.argv(root)
+		argv, mode := c.argv(root, withFault)
 		stdin := ""
 		if mode == "stdin" {
 			stdin = tree["regex-assembly/"+c16Targets[c.File].name+".ra"]
@@ -323,7 +340,7 @@ func checkC16(c C16Case) Outcome {
 	}
 	// converse first: the healthy tree must work (guards against "everything fails")
 	if !strings.HasPrefix(c.Fault, "invalid-version") && c.Fault != "missing-version" && !strings.HasPrefix(c.Fault, "malformed-rule-id") {
-		hr, _, _ := runOn(c.build(false))
+		hr, _, _ := runOn(c.build(false), false)
 		okExit := hr.Exit == 0 || (strings.HasPrefix(c.Cmd, "compare") && hr.Exit == 1 && (strings.Contains(hr.Stdout, "has changed") || c.Cmd == "compare-github")) || (c.Cmd == "format-check" && hr.Exit == 1)
 		if !okExit {
 			out.Detail["healthy_exit"], out.Detail["healthy_stderr"] = hr.Exit, tailLines(hr.Stderr, 5)
@@ -336,7 +353,7 @@ func checkC16(c C16Case) Outcome {
 		}
 	}
 	tree := c.build(true)
-	r, before, after := runOn(tree)
+	r, before, after := runOn(tree, true)
 	out.Detail["exit"], out.Detail["stdout"], out.Detail["stderr"] = r.Exit, clip(r.Stdout, 400), headTail(r.Stderr, 3, 5)
 	out.Detail["faulty_file"] = tree["regex-assembly/"+c16Targets[c.File].name+".ra"]
 	if c.Where == "include" {
